@@ -28,6 +28,19 @@
 // process-fatal event (`…:fatal@…`), allocation ≤ 64·len(input) + 1 MiB
 // (`…:alloc-from-count@…`), CPU of one decode ≤ 20 s (`…:nonterminating@…`).
 //
+// Input modes (inmode.go): every buffer-mode decode — the valid encoding, every prefix, every
+// mutant — is performed once per way of handing the bytes over: (a) an exactly sized private
+// copy, (b) re-sliced from a longer buffer that holds the rest of the message (complete
+// inputs: the same message again) behind the end, (c) the same with stale foreign bytes (a
+// canary pattern) behind the end, (d) a sub-slice at an odd offset inside a larger buffer.
+// Allocation and CPU are measured in mode (a). Oracles: a strict prefix panics in every mode
+// (`…:prefix-accepted/resliced-input@…`), outcome and decoded result (fingerprint of
+// everything returned) are the same in all modes
+// (`…:result-depends-on-bytes-beyond-input@…`), the buffer outside the input is not written
+// (`…:wrote-beyond-input@…`). The corpus holds blobs/texts of every class of the length prefix
+// (1 byte, 255+2 bytes for 253…65535, 254+4 bytes above) inside packs, steps, values and
+// records, so that prefixes end inside a blob of every class.
+//
 // Connection mode (net.go): a sample of strict prefixes and the complete encoding are
 // delivered in fragments over a net.Pipe to the decoder reading with io.NewDataInputNet; the
 // peer then closes or stays silent until the decoder's read deadline expires. Oracles:
@@ -191,6 +204,19 @@ func decoderSpent(d *decoder) bool { return ntByDecoder[d.Name] >= ntDecoderLimi
 // died handles the death of the server on one decode: cls is the (decoder, field) class for
 // the skip rules, suffix/where make the finding key, what describes the decode.
 func died(id string, d *decoder, dt *death, cls, suffix, where, what string, detail func(extra map[string]interface{}) func() map[string]interface{}) {
+	if dt.Mode != imExact {
+		// the decode that was running had its input handed over in one of the extra input modes
+		suffix += "/resliced-input"
+		what += " [input mode: " + imName[dt.Mode] + "]"
+		inner := detail
+		detail = func(extra map[string]interface{}) func() map[string]interface{} {
+			x := map[string]interface{}{"input_mode": imName[dt.Mode]}
+			for k, v := range extra {
+				x[k] = v
+			}
+			return inner(x)
+		}
+	}
 	switch dt.Kind {
 	case "fatal":
 		c.Count("process_fatal_decodes", 1)
@@ -242,12 +268,19 @@ func truncation(id string, e *enc) {
 	if len(cuts) == 0 {
 		return
 	}
-	out, err := runBatch(&srv, c.Out, []req{{dec: e.Dec, mode: modeTrunc, b: e.B, cuts: cuts, maxDeaths: 3}})
+	masks := make([]int, len(cuts))
+	for j := range masks {
+		masks[j] = extraModes(len(e.B), j+e.Index)
+	}
+	out, err := runBatch(&srv, c.Out, []req{{dec: e.Dec, mode: modeTrunc, b: e.B, cuts: cuts, cutMasks: masks, maxDeaths: 3}})
 	if err != nil {
 		c.Inconclusive(id, "decode server could not be started: "+err.Error())
 		return
 	}
 	var panicked, kend, done int64
+	var byMode, byModePanicked [nIModes]int64
+	answered := make([]int, 0, len(cuts))
+	var ranMask [nIModes][]int
 	for j, rs := range out[0] {
 		k := cuts[j]
 		if rs.skipped {
@@ -274,6 +307,52 @@ func truncation(id string, e *enc) {
 			continue
 		}
 		done++
+		answered = append(answered, k)
+		byMode[imExact]++
+		if rs.m.Panicked {
+			byModePanicked[imExact]++
+		}
+		_, isEnd := endAt(e.Fields, k)
+		for im := 1; im < nIModes; im++ {
+			fl := rs.x[im]
+			if fl&xRan == 0 {
+				continue
+			}
+			byMode[im]++
+			ranMask[im] = append(ranMask[im], k)
+			if fl&xPanicked != 0 {
+				byModePanicked[im]++
+			}
+			modeDetail := detail(map[string]interface{}{"input_mode": imName[im], "input_mode_flags": flagNames(fl),
+				"exact_copy_outcome": outcomeName(rs.m.Panicked), "this_mode_outcome": outcomeName(fl&xPanicked != 0)})
+			where := fieldAt(e.Fields, k)
+			switch {
+			case fl&xPanicked == 0 && rs.m.Panicked:
+				// the exactly sized copy fails closed, the same prefix with spare capacity behind it does not
+				c.Count("trunc_accepted_resliced", 1)
+				fail(d.Name+":prefix-accepted/resliced-input@"+where,
+					fmt.Sprintf("%s returned an object for the first %d of %d bytes of a valid encoding (cut falls in %s) when the prefix was handed over as %s; an exactly sized copy of the same prefix fails", d.Name, k, len(e.B), where, imName[im]), modeDetail)
+			case fl&xPanicked == 0 && !isEnd:
+				// accepted in mode (a) too: reported below under the plain key
+			case fl&xDiffers != 0:
+				c.Count("results_depending_on_bytes_beyond_input", 1)
+				fail(d.Name+":result-depends-on-bytes-beyond-input@cut-in-"+where,
+					fmt.Sprintf("decoding the first %d of %d bytes of a valid encoding gives a different result when the prefix is handed over as %s than for an exactly sized copy", k, len(e.B), imName[im]), modeDetail)
+			}
+			if fl&xUnstable != 0 {
+				c.Count("mode_differences_not_reproduced", 1)
+			}
+			if fl&(xWroteBehind|xWroteBefore) != 0 {
+				c.Count("writes_outside_input", 1)
+				fail(d.Name+":wrote-beyond-input@cut-in-"+where,
+					fmt.Sprintf("decoding the first %d of %d bytes of a valid encoding (handed over as %s) changed bytes of the caller's buffer outside the input", k, len(e.B), imName[im]), modeDetail)
+			}
+			observeViews(d, id, fl, im, len(e.B), k)
+		}
+		if rs.m.ViewInput {
+			c.Count("results_viewing_input_exact_copy", 1)
+			c.SetAdd("decoders_returning_views_of_input", d.Name)
+		}
 		c.Max("max_cpu_ms_one_decode", rs.m.CPU.Milliseconds())
 		if bound := uint64(allocSlope*k + allocConst); rs.m.Alloc > bound {
 			where := "cut-in-" + fieldAt(e.Fields, k)
@@ -303,13 +382,196 @@ func truncation(id string, e *enc) {
 	c.Count("truncation_points", done)
 	c.Count("trunc_panicked", panicked)
 	c.Count("trunc_older_version_exceptions", kend)
-	c.DistinctEnum(done)
-	c.Eval(done)
+	var extra int64
+	blobs := blobSpans(e)
+	for im := 0; im < nIModes; im++ {
+		c.Count("trunc_decodes_"+imShort[im], byMode[im])
+		c.Count("trunc_panicked_"+imShort[im], byModePanicked[im])
+		ks := answered
+		if im > 0 {
+			extra += byMode[im]
+			ks = ranMask[im]
+		}
+		// prefixes that end inside the payload of a blob / text, per class of its length prefix
+		for _, bs := range blobs {
+			if n := int64(cutsIn(ks, bs.lo, bs.hi)); n > 0 {
+				c.Count("trunc_inside_"+bs.class+"_"+imShort[im], n)
+			}
+		}
+	}
+	c.Count("truncation_decodes_extra_input_modes", extra)
+	c.DistinctEnum(done + extra)
+	c.Eval(done + extra)
 	if len(e.B) <= smallFull {
 		c.Count("encodings_every_prefix", 1)
 	} else {
 		c.Count("encodings_sampled_prefixes", 1)
 	}
+}
+
+// ---- input modes: helpers ----------------------------------------------------------------
+
+func outcomeName(panicked bool) string {
+	if panicked {
+		return "recoverable panic"
+	}
+	return "returned an object"
+}
+
+func flagNames(fl uint16) []string {
+	var out []string
+	for _, f := range []struct {
+		bit  uint16
+		name string
+	}{{xPanicked, "panicked"}, {xWroteBehind, "wrote-behind-the-input"}, {xWroteBefore, "wrote-in-front-of-the-input"},
+		{xDiffers, "outcome-or-result-differs-from-exact-copy(reproduced)"}, {xUnstable, "difference-not-reproduced"},
+		{xViewBeyond, "result-refers-to-buffer-memory-outside-the-input"}, {xViewInput, "result-refers-to-input-memory"},
+		{xViewMutable, "result-changed-when-buffer-was-overwritten"}, {xInputModified, "input-bytes-modified"}} {
+		if fl&f.bit != 0 {
+			out = append(out, f.name)
+		}
+	}
+	return out
+}
+
+var viewSampled = map[string]bool{}
+
+// observeViews: a result that refers to memory of the caller's buffer is an observation here
+// (result ownership is the subject of C01/C02/C03), counted and sampled with a witness.
+func observeViews(d *decoder, id string, fl uint16, im, encLen, inputLen int) {
+	if fl&xInputModified != 0 {
+		c.Count("decodes_that_modified_their_input", 1)
+		c.SetAdd("decoders_modifying_input", d.Name)
+	}
+	if fl&(xViewInput|xViewBeyond) == 0 {
+		return
+	}
+	c.Count("results_viewing_caller_buffer", 1)
+	c.SetAdd("decoders_returning_views_of_input", d.Name)
+	if fl&xViewMutable != 0 {
+		c.Count("results_changed_by_buffer_reuse", 1)
+	}
+	if !viewSampled[d.Name] && fl&xViewMutable != 0 {
+		viewSampled[d.Name] = true
+		c.Sample(map[string]interface{}{"observation": "the decoded object is a view of the caller's input buffer: its content changed when the buffer was overwritten after the decode",
+			"decoder": d.Name, "case": id, "input_mode": imName[im], "input_len": inputLen, "encoding_len": encLen, "flags": flagNames(fl)})
+	}
+}
+
+type blobSpan struct {
+	lo, hi int
+	class  string
+}
+
+// blobSpans: payload ranges of the blobs / texts of an encoding with the class of their length
+// prefix (blob-len: 1 byte, blob-len16: 255 + 2 bytes, blob-len32: 254 + 4 bytes)
+func blobSpans(e *enc) []blobSpan {
+	var out []blobSpan
+	for _, f := range e.Fields {
+		if f.Kind != kLen || !strings.HasPrefix(f.Name, "blob-len") || f.Off+f.Width > len(e.B) {
+			continue
+		}
+		var n int
+		var class string
+		switch {
+		case f.Name == "blob-len" && f.Width == 1:
+			n, class = int(e.B[f.Off]), "blob8"
+		case f.Name == "blob-len16" && f.Width == 3:
+			n, class = int(e.B[f.Off+1])<<8|int(e.B[f.Off+2]), "blob16"
+		case f.Name == "blob-len32" && f.Width == 5:
+			n, class = int(e.B[f.Off+1])<<24|int(e.B[f.Off+2])<<16|int(e.B[f.Off+3])<<8|int(e.B[f.Off+4]), "blob32"
+		default:
+			continue
+		}
+		if n > 0 && f.Off+f.Width+n <= len(e.B) {
+			out = append(out, blobSpan{f.Off + f.Width, f.Off + f.Width + n, class})
+		}
+	}
+	return out
+}
+
+// cutsIn: how many of the ascending cuts lie in [lo, hi)
+func cutsIn(ks []int, lo, hi int) int {
+	return sort.SearchInts(ks, hi) - sort.SearchInts(ks, lo)
+}
+
+// extraModes: the input modes a decode is repeated in, besides the exactly sized copy. Inputs
+// of up to allModesMax bytes: all of them. Longer inputs (their decodes are the expensive
+// ones): one, taken in rotation — consecutive prefixes / mutants of one encoding get (b), (c),
+// (d), (b), … so that every field of the encoding meets every mode.
+const allModesMax = 512
+
+func extraModes(inputLen, seq int) int {
+	if inputLen <= allModesMax {
+		return imAll
+	}
+	return 1 << (1 + seq%3)
+}
+
+// tailFor: bytes laid out behind a complete input. A hostile length or count of two or more
+// bytes gets room for every 16-bit value and 65536; everything else a short tail.
+func tailFor(where string) int {
+	if strings.Contains(where, "len/") || strings.Contains(where, "count/") {
+		return tailLong
+	}
+	return tailShort
+}
+
+// modeVerdicts judges the extra input modes of one complete input (hostile mutant or valid
+// encoding): same outcome and result as the exact copy, nothing written outside the input.
+func modeVerdicts(id string, d *decoder, rs *res, where, what string, inputLen, encLen int, prefix string, detail func(extra map[string]interface{}) func() map[string]interface{}) {
+	for im := 1; im < nIModes; im++ {
+		fl := rs.x[im]
+		if fl&xRan == 0 {
+			continue
+		}
+		c.Count(prefix+"_decodes_"+imShort[im], 1)
+		if fl&xPanicked == 0 {
+			c.Count(prefix+"_returned_"+imShort[im], 1)
+			if !rs.m.Panicked {
+				c.Count("results_compared_with_exact_copy", 1)
+				if fl&(xDiffers|xUnstable) == 0 {
+					c.Count("results_identical_to_exact_copy", 1)
+				}
+			}
+		}
+		md := func() func() map[string]interface{} {
+			return detail(map[string]interface{}{"input_mode": imName[im], "input_mode_flags": flagNames(fl),
+				"exact_copy_outcome": outcomeName(rs.m.Panicked), "this_mode_outcome": outcomeName(fl&xPanicked != 0)})
+		}
+		if fl&xDiffers != 0 {
+			c.Count("results_depending_on_bytes_beyond_input", 1)
+			fail(d.Name+":result-depends-on-bytes-beyond-input@"+where,
+				fmt.Sprintf("%s: with the input handed over as %s the decode %s, with an exactly sized copy of the same bytes it %s%s", what, imName[im],
+					outcomeVerb(fl&xPanicked != 0), outcomeVerb(rs.m.Panicked), sameOutcomeNote(fl&xPanicked != 0, rs.m.Panicked)), md())
+		}
+		if fl&xUnstable != 0 {
+			c.Count("mode_differences_not_reproduced", 1)
+		}
+		if fl&(xWroteBehind|xWroteBefore) != 0 {
+			c.Count("writes_outside_input", 1)
+			fail(d.Name+":wrote-beyond-input@"+where, fmt.Sprintf("%s (handed over as %s) changed bytes of the caller's buffer outside the input", what, imName[im]), md())
+		}
+		observeViews(d, id, fl, im, encLen, inputLen)
+	}
+	if rs.m.ViewInput {
+		c.Count("results_viewing_input_exact_copy", 1)
+		c.SetAdd("decoders_returning_views_of_input", d.Name)
+	}
+}
+
+func outcomeVerb(panicked bool) string {
+	if panicked {
+		return "fails (recoverable panic)"
+	}
+	return "returns an object"
+}
+
+func sameOutcomeNote(a, b bool) string {
+	if a == b {
+		return " — a different one"
+	}
+	return ""
 }
 
 // ---- connection mode (net.go) -----------------------------------------------------------
@@ -319,7 +581,16 @@ const netCuts = 16
 func netScenarios(e *enc, r *vlib.Rand) []netScen {
 	n := len(e.B)
 	var out []netScen
-	add := func(k int) { out = append(out, netScen{cut: k, frag: r.U32(), end: byte(r.Intn(2))}) }
+	// encodings above 16 KiB are delivered in fragments of up to 16 … 65536 bytes (seed%6 ≥ 3 in
+	// fragSizes): single-byte fragments of a 90 KiB message would only burn time
+	fragSeed := func() uint32 {
+		f := r.U32()
+		if n > 16<<10 {
+			f = f - f%6 + 3 + f%3
+		}
+		return f
+	}
+	add := func(k int) { out = append(out, netScen{cut: k, frag: fragSeed(), end: byte(r.Intn(2))}) }
 	if n <= netCuts {
 		for k := 0; k < n; k++ {
 			add(k)
@@ -342,7 +613,7 @@ func netScenarios(e *enc, r *vlib.Rand) []netScen {
 		}
 	}
 	// the complete encoding, fragmented, both endings
-	out = append(out, netScen{cut: n, frag: r.U32(), end: netEndStall}, netScen{cut: n, frag: r.U32(), end: netEndClose})
+	out = append(out, netScen{cut: n, frag: fragSeed(), end: netEndStall}, netScen{cut: n, frag: fragSeed(), end: netEndClose})
 	return out
 }
 
@@ -679,7 +950,7 @@ func allCounts(e *enc) []mutant {
 		})})
 	keepM := out[:0]
 	for _, m := range out {
-		if len(m.full) <= 2*maxEnc && !bytes.Equal(m.full, e.B) {
+		if len(m.full) <= 2*e.limit() && !bytes.Equal(m.full, e.B) {
 			keepM = append(keepM, m)
 		}
 	}
@@ -761,23 +1032,25 @@ func hostile(id string, e *enc, r *vlib.Rand) {
 	}
 	// the culprit of a death of THIS process (not expected) is found through the journal
 	c.Journal(id, d.Name+":fatal@worker-process")
-	var panicked, returned, done int64
+	var panicked, returned, done, extra int64
+	seq := 0
 	const chunk = 24
 	for lo := 0; lo < len(muts); lo += chunk {
 		hi := lo + chunk
 		if hi > len(muts) {
 			hi = len(muts)
 		}
-		hostileChunk(id, e, d, muts[lo:hi], &panicked, &returned, &done)
+		hostileChunk(id, e, d, muts[lo:hi], &panicked, &returned, &done, &extra, &seq)
 	}
 	c.Count("corruptions", done)
 	c.Count("corr_panicked", panicked)
 	c.Count("corr_returned", returned)
-	c.DistinctEnum(done)
-	c.Eval(done)
+	c.Count("corruption_decodes_extra_input_modes", extra)
+	c.DistinctEnum(done + extra)
+	c.Eval(done + extra)
 }
 
-func hostileChunk(id string, e *enc, d *decoder, muts []mutant, pPanicked, pReturned, pDone *int64) {
+func hostileChunk(id string, e *enc, d *decoder, muts []mutant, pPanicked, pReturned, pDone, pExtra *int64, pSeq *int) {
 	var reqs []req
 	var idx []int
 	for i, m := range muts {
@@ -793,7 +1066,9 @@ func hostileChunk(id string, e *enc, d *decoder, muts []mutant, pPanicked, pRetu
 			c.Count("corruptions_skipped_field_already_violating", 1)
 			continue
 		}
-		reqs = append(reqs, req{dec: e.Dec, mode: modeHostile, b: m.bytes(e.B)})
+		mb := m.bytes(e.B)
+		reqs = append(reqs, req{dec: e.Dec, mode: modeHostile, b: mb, imask: extraModes(len(mb), *pSeq+e.Index), tail: tailFor(m.where)})
+		*pSeq++
 		idx = append(idx, i)
 	}
 	if len(reqs) == 0 {
@@ -832,6 +1107,17 @@ func hostileChunk(id string, e *enc, d *decoder, muts []mutant, pPanicked, pRetu
 		} else {
 			*pReturned++
 		}
+		c.Count("hostile_decodes_"+imShort[imExact], 1)
+		if strings.HasSuffix(m.where, "/blob-len32") {
+			c.Count("corruptions_of_blob_len32_fields", 1)
+		}
+		rsc := rs
+		modeVerdicts(id, d, &rsc, m.where, fmt.Sprintf("decoding a %d-byte input with a hostile %s (%s)", len(mb), m.where, m.what), len(mb), len(e.B), "hostile", detail)
+		for im := 1; im < nIModes; im++ {
+			if rs.x[im]&xRan != 0 {
+				*pExtra++
+			}
+		}
 		bound := uint64(allocSlope*len(mb) + allocConst)
 		c.Max("max_alloc_bytes_one_decode", int64(rs.m.Alloc))
 		c.Max("max_alloc_permille_of_bound", int64(rs.m.Alloc*1000/bound))
@@ -860,7 +1146,7 @@ func hostileChunk(id string, e *enc, d *decoder, muts []mutant, pPanicked, pRetu
 // and the truncation pass that follows reports exactly that prefix.
 func admit(id string, e *enc) bool {
 	d := &decoders[e.Dec]
-	if len(e.B) == 0 || len(e.B) > maxEnc {
+	if len(e.B) == 0 || len(e.B) > e.limit() {
 		c.Count("corpus_skipped_size", 1)
 		return false
 	}
@@ -868,7 +1154,7 @@ func admit(id string, e *enc) bool {
 		c.Count("encodings_skipped_decoder_nonterminating", 1)
 		return false
 	}
-	out, err := runBatch(&srv, c.Out, []req{{dec: e.Dec, mode: modeAdmit, b: e.B}})
+	out, err := runBatch(&srv, c.Out, []req{{dec: e.Dec, mode: modeAdmit, b: e.B, imask: imAll, tail: tailLong}})
 	if err != nil {
 		c.Inconclusive(id, "decode server could not be started: "+err.Error())
 		return false
@@ -898,6 +1184,8 @@ func admit(id string, e *enc) bool {
 		c.Count("encodings_returned_with_unread_bytes", 1)
 		c.SetAdd("unread_bytes_families", e.Family)
 	}
+	c.Count("valid_decodes_"+imShort[imExact], 1)
+	modeVerdicts(id, d, &rs, "valid-encoding", fmt.Sprintf("decoding a valid %d-byte encoding", len(e.B)), len(e.B), len(e.B), "valid", detail)
 	if bound := uint64(allocSlope*len(e.B) + allocConst); rs.m.Alloc > bound {
 		c.Count("alloc_bound_exceeded", 1)
 		fail(d.Name+":alloc-from-count@valid-encoding", fmt.Sprintf("decoding a valid %d-byte encoding allocated %d bytes (bound 64·len+1 MiB = %d)", len(e.B), rs.m.Alloc, bound),
@@ -938,11 +1226,12 @@ func main() {
 		for try := 0; try < 6; try++ {
 			altForm = false
 			e = f.Gen(r)
-			if len(e.B) <= maxEnc {
+			if len(e.B) <= e.limit() {
 				break
 			}
 		}
 		e.Family = f.Name
+		e.Index = i
 		e.Alt = altForm
 		id := fmt.Sprintf("enc#%d", i)
 		if ntHung >= ntHungMax {
